@@ -76,7 +76,7 @@ pub fn check_area(c: u64, n: i32, worst: &Mutex<f64>) -> Vec<Viol> {
 
 pub fn run_c04(tier: &str) -> Report {
     let mut rep = Report::new("exploration");
-    let rmax = if tier == "quick" { 4 } else { 8 };
+    let rmax = if tier == "quick" { 6 } else { 8 };
     let worst = Mutex::new(0.0f64);
     let mut evals = 0u64;
     let mut area_sums = Vec::new();
@@ -299,7 +299,7 @@ pub fn check_ring(c: u64, fine: &[V3], worst_window: &Mutex<f64>) -> Vec<Viol> {
 
 pub fn run_c11(tier: &str) -> Report {
     let mut rep = Report::new("exploration");
-    let rmax = if tier == "quick" { 3 } else { 7 };
+    let rmax = if tier == "quick" { 4 } else { 7 };
     let worst_window = Mutex::new(0.0f64);
     let pole_cells = AtomicU64::new(0);
     let mut cells = en::all_upto(rmax);
@@ -458,7 +458,7 @@ pub fn check_parent(p: u64, stats: &Mutex<[f64; 3]>) -> Vec<Viol> {
 
 pub fn run_c12(tier: &str) -> Report {
     let mut rep = Report::new("exploration");
-    let rmax = if tier == "quick" { 6 } else { 9 };
+    let rmax = if tier == "quick" { 7 } else { 9 };
     let stats = Mutex::new([f64::INFINITY, f64::INFINITY, 0.0]);
     let mut parents = en::all_upto(rmax);
     let nall = parents.len();
